@@ -718,3 +718,64 @@ package helper
 // window sum over P values starting at k; pointwise square
 //@ stream winS(a stream, P int)[k] = psum(a, k + P) - psum(a, k)
 //@ stream sqS(a stream)[j] = a[j] * a[j]
+
+// ---- C18: scaling lemmas. b is a scaled by lam (on the positions a formula reads); spec functions are homogeneous ----
+//@ lemma mul_cmp(lam real, x real, y real)
+//@ requires[C18] lam > 0
+//@ ensures[C18] (lam * x >= lam * y) == (x >= y) && (lam * x <= lam * y) == (x <= y) && (lam * x == lam * y) == (x == y)
+//@ lemma div_scale(lam real, x real, n int)
+//@ requires[C18] n >= 1
+//@ ensures[C18] (lam * x) / n == lam * (x / n)
+//@ lemma ema_step_scale(lam real, x real, e real, m real)
+//@ ensures[C18] (lam * x - lam * e) * m + lam * e == lam * ((x - e) * m + e)
+//@ lemma rma_step_scale(lam real, x real, e real, n int)
+//@ requires[C18] n >= 1
+//@ ensures[C18] (lam * e * (n - 1) + lam * x) / n == lam * ((e * (n - 1) + x) / n)
+//@ lemma wma_step_scale(lam real, w real, x real, i int, n int)
+//@ requires[C18] n >= 1
+//@ ensures[C18] lam * w + lam * x * i / n == lam * (w + x * i / n)
+//@ lemma psum_scale(a stream, b stream, lam real, n int)
+//@ requires[C18] forall j :: 0 <= j && j < n ==> b[j] == lam * a[j]
+//@ ensures[C18] psum(b, n) == lam * psum(a, n)
+//@ induction n
+//@ lemma ema_scale(a stream, b stream, lam real, P int, m real, k int)
+//@ requires[C18] P >= 1 && k >= 0 && (forall j :: 0 <= j && j < k + P ==> b[j] == lam * a[j])
+//@ ensures[C18] emaS(b, P, m, k) == lam * emaS(a, P, m, k)
+//@ induction k
+//@ use psum_scale(a, b, lam, P)
+//@ use div_scale(lam, psum(a, P), P)
+//@ use ema_step_scale(lam, a[k + P - 1], emaS(a, P, m, k - 1), m)
+//@ lemma rma_scale(a stream, b stream, lam real, P int, k int)
+//@ requires[C18] P >= 1 && k >= 0 && (forall j :: 0 <= j && j < k + P ==> b[j] == lam * a[j])
+//@ ensures[C18] rmaS(b, P, k) == lam * rmaS(a, P, k)
+//@ induction k
+//@ use psum_scale(a, b, lam, P)
+//@ use div_scale(lam, psum(a, P), P)
+//@ use rma_step_scale(lam, a[k + P - 1], rmaS(a, P, k - 1), P)
+//@ lemma wmax_scale(a stream, b stream, lam real, lo int, hi int)
+//@ requires[C18] lam > 0 && lo < hi && (forall j :: lo <= j && j < hi ==> b[j] == lam * a[j])
+//@ ensures[C18] wmaxS(b, lo, hi) == lam * wmaxS(a, lo, hi)
+//@ induction hi from lo
+//@ use mul_cmp(lam, wmaxS(a, lo, hi - 1), a[hi - 1])
+//@ lemma wmin_scale(a stream, b stream, lam real, lo int, hi int)
+//@ requires[C18] lam > 0 && lo < hi && (forall j :: lo <= j && j < hi ==> b[j] == lam * a[j])
+//@ ensures[C18] wminS(b, lo, hi) == lam * wminS(a, lo, hi)
+//@ induction hi from lo
+//@ use mul_cmp(lam, wminS(a, lo, hi - 1), a[hi - 1])
+//@ lemma since_scale(a stream, b stream, lam real, k int)
+//@ requires[C18] lam > 0 && (forall j :: 0 <= j && j <= k ==> b[j] == lam * a[j])
+//@ ensures[C18] since(b, k) == since(a, k)
+//@ induction k
+//@ use mul_cmp(lam, a[k], a[k - 1])
+//@ lemma devsq_scale(a stream, b stream, lam real, lo int, hi int, mu real)
+//@ requires[C18] forall j :: lo <= j && j < hi ==> b[j] == lam * a[j]
+//@ ensures[C18] devsq(b, lo, hi, lam * mu) == lam * lam * devsq(a, lo, hi, mu)
+//@ induction hi from lo
+//@ lemma sqrt_scale(lam real, x real)
+//@ requires[C18] lam > 0 && x >= 0
+//@ ensures[C18] sqrt(lam * lam * x) == lam * sqrt(x)
+//@ lemma wmaW_scale(a stream, b stream, lam real, lo int, n int, P int)
+//@ requires[C18] P >= 1 && (forall j :: lo <= j && j < lo + n ==> b[j] == lam * a[j])
+//@ ensures[C18] wmaW(b, lo, n, P) == lam * wmaW(a, lo, n, P)
+//@ induction n
+//@ use wma_step_scale(lam, wmaW(a, lo, n - 1, P), a[lo + n - 1], n, P)
